@@ -696,23 +696,28 @@ func (x *vConnRun) follow(ctx byte, reqTok int, reqConn *vConnC) {
 		}
 		reqConn.rd.mu.Unlock()
 	}
-	var answered []int
+	// in the order a sweep produces them: timeouts first, then expiries, then the grants the expiries made possible
+	var answered, expired, granted []int
 	for tok, st := range x.live {
 		nh, nw := sc.holds[tok] > 0, sc.waits[tok] > 0
 		switch {
 		case st == 'w' && nh:
-			answered = append(answered, tok)
+			granted = append(granted, tok)
 			x.live[tok] = 'h'
 		case st == 'w' && !nw:
 			answered = append(answered, tok)
 			delete(x.live, tok)
 		case st == 'h' && !nh:
 			if ctx == 't' {
-				answered = append(answered, tok) // expired: EXPRIED notice
+				expired = append(expired, tok) // expired: EXPRIED notice
 			}
 			delete(x.live, tok)
 		}
 	}
+	sort.Ints(answered)
+	sort.Ints(expired)
+	sort.Ints(granted)
+	answered = append(append(answered, expired...), granted...)
 	if ctx == 'q' {
 		ti := x.toks[reqTok]
 		if ti.kind == 'L' && sc.waits[reqTok] > 0 {
@@ -730,7 +735,13 @@ func (x *vConnRun) follow(ctx byte, reqTok int, reqConn *vConnC) {
 			}
 		}
 	}
-	sort.Ints(answered)
+	// replies that close a connection (blocked text handler, peer gone) last: the close runs on the handler's goroutine,
+	// after the sweep that produced the other replies
+	isLost := func(tok int) bool {
+		o := x.conns[x.toks[tok].owner]
+		return o.kind == 't' && o.blocked == tok && !o.srvClosed && o.cliGone
+	}
+	sort.SliceStable(answered, func(i, j int) bool { return !isLost(answered[i]) && isLost(answered[j]) })
 	again := false
 	for _, tok := range answered {
 		owner := x.conns[x.toks[tok].owner]
@@ -928,9 +939,31 @@ func (x *vConnRun) cmdFreed(w *vConnWill) bool {
 
 func (x *vConnRun) tick() {
 	x.ue0, x.uc0 = int(x.v.counters().UnlockErrorCount), int(x.v.counters().UnLockCount)
-	x.v.tick()
+	// one second of server time, as vSeq.tick does it, but in its two phases: a reply that reaches a blocked text handler
+	// whose peer is gone makes that connection close on its own goroutine; let that finish before the expiry sweep runs
+	db := x.v.db
+	if x.v.expectNow != 0 && db.currentTime != x.v.expectNow {
+		panic(fmt.Sprintf("harness: the virtual clock was overwritten (%d, expected %d): a background sweeper is still alive", db.currentTime, x.v.expectNow))
+	}
+	now := db.currentTime + 1
+	x.v.expectNow = now
+	db.currentTime = now
+	c := db.checkTimeoutTime
+	db.checkTimeoutTime = now + 1
+	for ; c <= now; c++ {
+		db.checkTimeTimeOut(c, now, 0, x.v.tq)
+	}
 	x.nticks++
 	x.ev("t", "-")
+	x.follow('t', 0, nil)
+	if x.dead != "" {
+		return
+	}
+	c = db.checkExpriedTime
+	db.checkExpriedTime = now + 1
+	for ; c <= now; c++ {
+		db.checkTimeExpried(c, now, 0, x.v.eq)
+	}
 	x.follow('t', 0, nil)
 }
 
